@@ -28,7 +28,7 @@ def model(tier):
 
 
 def in_domain(f):
-    return f["wf"] and f["no"] and f["wfn"] and f["bf"] and f["iswf"]
+    return f["wf"] and f["no"] and f["wfn"] and f["dwf"] and f["iswf"] and not any(f["interp"])
 
 
 def candidates(rng, n):
@@ -42,6 +42,10 @@ def candidates(rng, n):
             vs = [variant(i) for i in idents] + [variant("Explicit", ser=["KeepMe_AsIs", "k"]), variant("Ts", ts="Also Kept", ser=["x"])]
             cands.append(enum(did, vs, style=st, aci=aci, cis=aci))
             did += 1
+    from ..defs import field
+    cands.append(enum(did, [variant("Set", "named", [field("u8", "members")], ts="set{{}}"), variant("Unit", ts="{{x}}"),
+                            variant("Tup", "tuple", [field("u8")], ser=["a", "}}b{{"])]))
+    did += 1
     for k in range(n):
         cands.append(SC.names_def(rng, did, allow_prefix=False))
         did += 1
